@@ -110,6 +110,25 @@ fn main() {
                 _ => { writeln!(out, "{}", engines::cursor::extremes()).unwrap(); }
             }
         }
+        // memcase <cases.ndjson> [from]: loaders and MemCase lifecycle, one observation per line
+        Some("memcase") => {
+            let _ = engines::memcase::LIVE_FN.set(harness::alloc::live);
+            let dir = std::env::temp_dir().join(format!("verif_memcase_{}", std::process::id()));
+            std::fs::create_dir_all(&dir).unwrap();
+            let f = std::io::BufReader::new(std::fs::File::open(&args[2]).unwrap());
+            let from: usize = args.get(3).and_then(|s| s.parse().ok()).unwrap_or(0);
+            for (i, line) in f.lines().enumerate() {
+                let line = line.unwrap();
+                if i < from || line.trim().is_empty() { continue; }
+                writeln!(out, "{}", json!({"start": i})).unwrap();
+                out.flush().unwrap();
+                let case: Value = serde_json::from_str(&line).unwrap();
+                let obs = engines::memcase::run_case(&case, &dir);
+                writeln!(out, "{}", json!({"i": i, "obs": obs})).unwrap();
+                out.flush().unwrap();
+            }
+            let _ = std::fs::remove_dir_all(&dir);
+        }
         Some("keys") => {
             let mut ks: Vec<&str> = table().keys().cloned().collect();
             ks.sort();
